@@ -85,6 +85,7 @@ func makeQueue[T any](tracker queueLimitTracker) *Queue[T] {
 	}
 	q.nempty = sync.NewCond(&q.mu)
 	q.nupdates = sync.NewCond(&q.mu)
+	verifGuardOwner(tracker, &q.mu)
 	return q
 }
 
@@ -107,6 +108,7 @@ func (q *Queue[T]) Len() int {
 }
 
 func (q *Queue[T]) doAdd(item T) error {
+	verifGuard("pubsub.Queue.doAdd", &q.mu)
 	if q.closed {
 		return ErrQueueClosed
 	}
@@ -201,6 +203,7 @@ func (q *Queue[T]) Wait(ctx context.Context) (out T, _ error) {
 // caller must hold the lock, but this implements the wait behavior
 // without modifying the queue for use in the iterator.
 func (q *Queue[T]) unsafeWaitWhileEmpty(ctx context.Context) error {
+	verifGuard("pubsub.Queue.unsafeWaitWhileEmpty", &q.mu)
 	// If the context terminates, wake the waiter.
 	ctx, cancel := context.WithCancel(ctx)
 	go func() { <-ctx.Done(); q.mu.Lock(); defer q.mu.Unlock(); q.nempty.Broadcast() }()
@@ -233,6 +236,7 @@ func (q *Queue[T]) waitForNew(ctx context.Context) error {
 // caller must hold the lock: blocks until the entry has a successor,
 // the queue is closed, or the context is canceled.
 func (q *Queue[T]) unsafeWaitForLink(ctx context.Context, e *entry[T]) error {
+	verifGuard("pubsub.Queue.unsafeWaitForLink", &q.mu)
 	// when the function returns wake all other waiters.
 	ctx, cancel := context.WithCancel(ctx)
 	go func() { <-ctx.Done(); q.mu.Lock(); defer q.mu.Unlock(); q.nupdates.Broadcast() }()
@@ -272,6 +276,7 @@ func (q *Queue[T]) Close() error {
 //
 // Preconditions: The caller holds q.mu and q is not empty.
 func (q *Queue[T]) popFront() T {
+	verifGuard("pubsub.Queue.popFront", &q.mu)
 	e := q.front.link
 	q.front.link = e.link
 	if e == q.back {
